@@ -2962,8 +2962,8 @@ package connect
 //@   ensures old(hc.receiveErr) != nil ==> err == old(hc.receiveErr) && !called("(*connectStreamingUnmarshaler).Unmarshal", 1) && hc.receiveErr == old(hc.receiveErr)   // label: after-the-first-failure-(or-the-end-of-the-request)-nothing-more-is-read-and-the-same-error-is-returned   // tags: C04, C07
 //@   ensures old(hc.receiveErr) == nil ==> (err == nil) == (callres("(*connectStreamingUnmarshaler).Unmarshal", 1) == nil)   // label: a-message-iff-the-unmarshaler-produced-one
 //@   ensures old(hc.receiveErr) == nil && err != nil && !Is(callres("(*connectStreamingUnmarshaler).Unmarshal", 1), errSpecialEnvelope) && (Is(callres("(*connectStreamingUnmarshaler).Unmarshal", 1), io.EOF) || cdone(reqctx(hc.request)) == nil) ==> err == callres("(*connectStreamingUnmarshaler).Unmarshal", 1)   // label: the-unmarshaler's-error-is-returned
-//@   ensures old(hc.receiveErr) == nil && err != nil && !Is(callres("(*connectStreamingUnmarshaler).Unmarshal", 1), io.EOF) && cdone(reqctx(hc.request)) == context.Canceled ==> codeOf(err) == 1   // label: a-receive-that-fails-once-the-client-went-away-is-canceled-whatever-the-transport-reports   // tags: C15
-//@   ensures old(hc.receiveErr) == nil && err != nil && !Is(callres("(*connectStreamingUnmarshaler).Unmarshal", 1), io.EOF) && cdone(reqctx(hc.request)) == context.DeadlineExceeded ==> codeOf(err) == 4   // label: a-receive-that-fails-once-the-deadline-passed-is-deadline-exceeded-whatever-the-transport-reports   // tags: C15
+//@   ensures old(hc.receiveErr) == nil && err != nil && !Is(err, io.EOF) && cdone(reqctx(hc.request)) == context.Canceled ==> codeOf(err) == 1   // label: a-receive-that-fails-once-the-client-went-away-is-canceled-whatever-the-transport-reports-a-protocol-error-included   // tags: C15
+//@   ensures old(hc.receiveErr) == nil && err != nil && !Is(err, io.EOF) && cdone(reqctx(hc.request)) == context.DeadlineExceeded ==> codeOf(err) == 4   // label: a-receive-that-fails-once-the-deadline-passed-is-deadline-exceeded-whatever-the-transport-reports-a-protocol-error-included   // tags: C15
 //@   ensures old(hc.receiveErr) == nil && err != nil && Is(err, io.EOF) && termerr(hc.unmarshaler.envelopeReader.reader) == io.EOF ==> |old(rest(hc.unmarshaler.envelopeReader.reader))| == 0   // label: the-handler-sees-a-clean-end-only-at-the-clean-end-of-the-request-body   // tags: C04, C07
 //@   ensures err != nil ==> hc.receiveErr == err   // label: the-first-error-is-latched   // tags: C04
 //@   ensures old(hc.receiveErr) == nil && err != nil ==> coded(err)                                                                   // label: errors-are-coded
@@ -2975,8 +2975,8 @@ package connect
 //@   ensures old(hc.receiveErr) != nil ==> err == old(hc.receiveErr) && !called("(*grpcUnmarshaler).Unmarshal", 1) && hc.receiveErr == old(hc.receiveErr)   // label: after-the-first-failure-(or-the-end-of-the-request)-nothing-more-is-read-and-the-same-error-is-returned   // tags: C04, C07
 //@   ensures old(hc.receiveErr) == nil ==> (err == nil) == (callres("(*grpcUnmarshaler).Unmarshal", 1) == nil)   // label: a-message-iff-the-unmarshaler-produced-one
 //@   ensures old(hc.receiveErr) == nil && err != nil && !Is(callres("(*grpcUnmarshaler).Unmarshal", 1), errSpecialEnvelope) && (Is(callres("(*grpcUnmarshaler).Unmarshal", 1), io.EOF) || cdone(reqctx(hc.request)) == nil) ==> err == callres("(*grpcUnmarshaler).Unmarshal", 1)   // label: the-unmarshaler's-error-is-returned
-//@   ensures old(hc.receiveErr) == nil && err != nil && !Is(callres("(*grpcUnmarshaler).Unmarshal", 1), io.EOF) && cdone(reqctx(hc.request)) == context.Canceled ==> codeOf(err) == 1   // label: a-receive-that-fails-once-the-client-went-away-is-canceled-whatever-the-transport-reports   // tags: C15
-//@   ensures old(hc.receiveErr) == nil && err != nil && !Is(callres("(*grpcUnmarshaler).Unmarshal", 1), io.EOF) && cdone(reqctx(hc.request)) == context.DeadlineExceeded ==> codeOf(err) == 4   // label: a-receive-that-fails-once-the-deadline-passed-is-deadline-exceeded-whatever-the-transport-reports   // tags: C15
+//@   ensures old(hc.receiveErr) == nil && err != nil && !Is(err, io.EOF) && cdone(reqctx(hc.request)) == context.Canceled ==> codeOf(err) == 1   // label: a-receive-that-fails-once-the-client-went-away-is-canceled-whatever-the-transport-reports-a-protocol-error-included   // tags: C15
+//@   ensures old(hc.receiveErr) == nil && err != nil && !Is(err, io.EOF) && cdone(reqctx(hc.request)) == context.DeadlineExceeded ==> codeOf(err) == 4   // label: a-receive-that-fails-once-the-deadline-passed-is-deadline-exceeded-whatever-the-transport-reports-a-protocol-error-included   // tags: C15
 //@   ensures old(hc.receiveErr) == nil && err != nil && Is(err, io.EOF) && termerr(hc.unmarshaler.envelopeReader.reader) == io.EOF ==> |old(rest(hc.unmarshaler.envelopeReader.reader))| == 0   // label: the-handler-sees-a-clean-end-only-at-the-clean-end-of-the-request-body   // tags: C04, C07
 //@   ensures err != nil ==> hc.receiveErr == err   // label: the-first-error-is-latched   // tags: C04
 //@   ensures old(hc.receiveErr) == nil && err != nil ==> coded(err)                                                                   // label: errors-are-coded
